@@ -54,7 +54,13 @@ Proof.
   unfold confirm. intros H Hs.
   destruct (confirm_deletes _ _ _ _) as [[[[rmd be] ans1] n1]|]; [|discriminate].
   destruct (confirm_copies _ _ _ _) as [[[[rmc b2] ans2] n2]|]; [|discriminate].
-  inversion H; subst. apply app_eq_nil in H2 as [-> ->]. rewrite !remove_paths_nil. destruct a; reflexivity.
+  inversion H; subst. apply app_eq_nil in H2 as [-> ->]. rewrite !remove_paths_nil.
+  assert (Hk : kept_in_the_way [] (a_delete a) = []).
+  { unfold kept_in_the_way. induction (a_delete a) as [|e l IH]; cbn; auto. }
+  rewrite Hk.
+  assert (Hnb : forall V (l : list (path * V)), filter (not_blocked []) l = l).
+  { intros V l. induction l; cbn; auto. f_equal; auto. }
+  rewrite Hnb. destruct a; reflexivity.
 Qed.
 
 (* ---- an error-free run of boss steps is the plain execution of their commands ---- *)
